@@ -15,7 +15,9 @@ from dliswriter.utils.internal.value_checkers import validate_string
 
 THEOREMS = ['Dlis.C17.hc_restored', 'Dlis.C17.hc_on_inside', 'Dlis.C17.names_restricted', 'Dlis.C17.hcChar_class',
             'Dlis.C17.enum_restricted', 'Dlis.C17.breach_raises_iff', 'Dlis.C17.file_set_numbers',
-            'Dlis.C17.pattern_pinned', 'Dlis.Obligations.enums_eq']
+            'Dlis.C17.pattern_pinned', 'Dlis.C17.setter_names_restricted', 'Dlis.C17.setter_enums_restricted',
+            'Dlis.C17.setter_soft_outside', 'Dlis.C17.units_restricted', 'Dlis.Obligations.enums_eq',
+            'Dlis.Obligations.convs_eq']
 
 
 class Boom(Exception):
@@ -113,7 +115,10 @@ def run(tier):
     chk.rule = ('(a) every context shape up to depth 3 from a random grammar (library calls that fail, exceptions '
                 'propagating out of 1..3 levels, decorator form), flag compared with the model after every step; (b) '
                 'validate_string vs the character class for every code point < 256 in three positions + samples beyond; '
-                '(c) 11 restricted aspects x {met, breached} x {inside, outside}; (d) default file-set numbers in the mode.')
+                '(c) 11 restricted aspects x {met, breached} x {inside, outside}; (d) default file-set numbers in the mode; '
+                '(e) set_attributes on every name-like / enumerated attribute and every units-carrying attribute of every '
+                'object type (70% inside the mode), compared with the converter model; oracle: what was accepted in the mode '
+                'is over [A-Z0-9_-]+ / a value of the pinned enumeration.')
     bres = build(THEOREMS)
     model = Model()
     R = rng('C17', 'hc')
@@ -277,6 +282,13 @@ def run(tier):
         chk.case('file-set-numbers', nontrivial_key='fsn', sample={'values': vals if st == 'ok' else None})
         if st != 'ok' or list(vals) != [1, 2, 3]:
             chk.fail('file-set-number:not-sequential', {'origins': 3}, f'default file set numbers in the mode: {vals}')
+        # (e) the setters of every name-like and enumerated attribute of every object type, and the units setter of
+        # every attribute, in and outside the mode, against the converter model and the mode oracle
+        from harness import convert
+        from harness.filegen import ATTRS, ENUMS
+        convert.run_stream(chk, model, bres, rng('C17', 'setters'), 10 if tier == 'quick' else 60, ATTRS,
+                           stream='setters', hc_share=0.7, enums_pinned=ENUMS,
+                           only=lambda st, row, conv: conv == 'validateString' or conv.startswith('enum:') or row[6])
     finally:
         global_config.high_compat_mode = False
         shutil.rmtree(tmp, ignore_errors=True)
